@@ -37,7 +37,7 @@ Inductive value_ref :=
 Inductive decoded :=
 | DOk (v : value_ref)
 | DErr                       (* Err(_): unknown tag *)
-| DPanic.                    (* unreachable!("Number values are not NaN-boxed.") *)
+| DPanic.                    (* unused since the repair (was: unreachable!("Number values are not NaN-boxed.")) *)
 
 (** [ErrorCode::from_repr(val as usize).unwrap_or(ErrorCode::Unknown)] *)
 Definition error_of_repr (v : N) : N :=
@@ -61,7 +61,7 @@ Definition try_decode (v : N) : decoded :=
     | Some t =>
         if t =? TAG_Bool W then DOk (VBool (negb (ptr =? 0)))
         else if t =? TAG_Null W then DOk VNull
-        else if t =? TAG_Number W then DPanic
+        else if t =? TAG_Number W then DErr
         else if t =? TAG_Array W then DOk (VArray ptr len)
         else if t =? TAG_String W then DOk (VString ptr len)
         else if t =? TAG_Object W then DOk (VObject ptr len)
